@@ -13,3 +13,15 @@ Definition ln_tol (l : Q) : Q := (1 # (2 ^ 44)) * Qabs l.
 Definition ln_data_ok (y l : list Q) : bool := all2 (fun y l => ln_close y l (ln_tol l)) y l.
 
 Definition check_ln_case (c : list dy * list dy) : bool := ln_data_ok (dyl (fst c)) (dyl (snd c)).
+
+(* Round 4 (generator sweep).  A series held in float32 / float16 gets its logarithm taken by numpy in that format
+   (np.log(float32 array) is a float32 array): the values l_i handed to CaseLogHP are then float32 / float16 numbers,
+   logarithms up to the rounding of THAT format.  Same certificate with the accuracy as a parameter: every y_i is
+   positive and |ln y_i - l_i| <= 2^-k |l_i|  (the harness passes k = 19 for float32, observed <= 1.8 ulp = 2^-22.2, and k = 8
+   for float16, observed <= 2^-11). *)
+Definition ln_tol_w (k : positive) (l : Q) : Q := (1 # (2 ^ k)) * Qabs l.
+
+Definition ln_data_ok_w (k : positive) (y l : list Q) : bool := all2 (fun y l => ln_close y l (ln_tol_w k l)) y l.
+
+Definition check_ln_case_w (c : positive * (list dy * list dy)) : bool :=
+  ln_data_ok_w (fst c) (dyl (fst (snd c))) (dyl (snd (snd c))).
